@@ -102,8 +102,8 @@ def _alarm(signum, frame):
 # ------------------------------------------------------------------------------------------------ tiers
 def params(tier):
     if tier == "thorough":
-        return {"L": 7, "D": 4, "colors": 4, "ctor_parts": 3, "nshards": 1024}
-    return {"L": 6, "D": 3, "colors": 3, "ctor_parts": 3, "nshards": 400}
+        return {"L": 7, "D": 4, "colors": 4, "ctor_parts": 3, "nshards": 480, "nprefix": 32}
+    return {"L": 6, "D": 3, "colors": 3, "ctor_parts": 3, "nshards": 96, "nprefix": 16}
 
 
 def pool(p):
@@ -126,7 +126,8 @@ def bounds(tier):
 
 def shards(tier):
     p = params(tier)
-    return [("prefix",), ("chunks",)] + [("bfs", k, p["nshards"]) for k in range(p["nshards"])]
+    return ([("chunks",)] + [("prefix", k, p["nprefix"]) for k in range(p["nprefix"])]
+            + [("bfs", k, p["nshards"]) for k in range(p["nshards"])])
 
 
 # ------------------------------------------------------------------------------------------------ real side
@@ -737,7 +738,7 @@ def expand(m, hist, acc, seen, check, collect):
                 acc.sample({"history": hist2, "r0": show(refs2[0]), "r1": show(refs2[1])})
             if found:
                 continue
-        collect(hist2)
+        collect(hist2, key)
     signal.alarm(0)
 
 
@@ -762,49 +763,77 @@ def _alias_only(m, regs, refs):
     return out
 
 
-_LEVEL1 = {}      # tier -> (level-1 histories, their keys); recomputed once per worker process
+_FRONTIER = {}      # tier -> frontier of depth <= 2, recomputed (silently) once per worker process
 
 
-def level1(m, acc, check):
-    """The initial state and all distinct states one operation away (deterministic order)."""
-    regs, refs = m.fresh()
+def frontier(tier):
+    """Levels 0..2 of the search, globally deduplicated, in a deterministic order.
+    -> dict(l1=[hist], l2=[(hist, key)], owner={l2 key: index of the level-1 state that reaches it first},
+            keys01=set, keys=set of all keys of depth <= 2)"""
+    if tier in _FRONTIER:
+        return _FRONTIER[tier]
+    p = params(tier)
+    m = Machine(p)
+    regs, _ = m.fresh()
     seen = {state_key(regs)}
-    out = []
-    if check:
-        found, _ = m.observe_state(regs, refs, acc, [])
-        for sig, msg, obs, exp, case in found:
-            acc.violation("C08:" + sig, case, msg, obs, exp)
-        acc.case(nontrivial=False, features=(), outcome="initial")
-    expand(m, [], acc, seen, check, out.append)
-    return out, seen
+    l1 = []
+    expand(m, [], None, seen, False, lambda h, k: l1.append(h))
+    keys01 = set(seen)
+    l2 = []
+    owner = {}
+    for i, h in enumerate(l1):
+        def col(h2, k2, i=i):
+            l2.append((h2, k2))
+            owner[k2] = i
+        expand(m, h, None, seen, False, col)
+    _FRONTIER[tier] = {"l1": l1, "l2": l2, "owner": owner, "keys01": keys01, "keys": seen}
+    return _FRONTIER[tier]
 
 
 def run_shard(shard, tier, seed, acc):
     p = params(tier)
     old = signal.signal(signal.SIGALRM, _alarm)
     try:
-        m = Machine(p)
         if shard[0] == "chunks":
             run_chunks(p, acc)
             return
-        if shard[0] == "prefix":
-            level1(m, acc, True)
-            return
-        _, k, n = shard
-        if tier not in _LEVEL1:
-            roots, seen = level1(m, None, False)
-            _LEVEL1[tier] = (roots, frozenset(seen))
-        roots, seen = _LEVEL1[tier]
-        seen = set(seen)
-        m.obs_cache.clear()
-        queue = deque((h, 1) for i, h in enumerate(roots) if i % n == k)
+        fr = frontier(tier)
+        m = Machine(p)
         D = p["D"]
+        _, k, n = shard
+        if shard[0] == "prefix":
+            # transitions into depth <= 2 (each depth-2 state is reported by the level-1 state that owns it)
+            if k == 0:
+                regs, refs = m.fresh()
+                found, _ = m.observe_state(regs, refs, acc, [])
+                for sig, msg, obs, exp, case in found:
+                    acc.violation("C08:" + sig, case, msg, obs, exp)
+                acc.case(nontrivial=False, features=(), outcome="initial")
+                expand(m, [], acc, {state_key(regs)}, True, lambda h, key: None)
+            owned = {}
+            for key, i in fr["owner"].items():
+                owned.setdefault(i, []).append(key)
+            seen = set(fr["keys"])
+            for i, h in enumerate(fr["l1"]):
+                if i % n != k:
+                    continue
+                for key in owned.get(i, ()):
+                    seen.discard(key)
+                expand(m, h, acc, seen, True, lambda h2, key: None)
+                if acc.expired():
+                    return
+            return
+        seen = set(fr["keys"])
+        l2 = fr["l2"]           # contiguous blocks: neighbours share a parent, hence register values
+        queue = deque((h, 2) for (h, _) in l2[len(l2) * k // n:len(l2) * (k + 1) // n])
         while queue:
             hist, d = queue.popleft()
+            if d >= D:
+                continue
             if acc.expired():
                 return
             nxt = []
-            expand(m, hist, acc, seen, True, nxt.append)
+            expand(m, hist, acc, seen, True, lambda h2, key: nxt.append(h2))
             if d + 1 < D:
                 queue.extend((h, d + 1) for h in nxt)
     finally:
